@@ -534,7 +534,7 @@ func (s *sim) gossipSlot(slot uint64, blk *blockRec, parent *blockRec, hb *state
 				return x
 			})
 			if pos == 0 || r.Chance(1, 4) {
-				s.wireCheck("attestation", spec.Wrap(att), func() sszPlain { return spec.Wrap(new(phase0.Attestation)) }, false)
+				s.wireCheck("attestation", spec.Wrap(att), func() sszPlain { return spec.Wrap(new(phase0.Attestation)) }, false, phase0.AttestationType(spec))
 			}
 			s.judge(g, "attestation", what, exp, res, p)
 			if s.stop {
@@ -627,7 +627,7 @@ func (s *sim) gossipSlot(slot uint64, blk *blockRec, parent *blockRec, hb *state
 				exp = expTiming
 			}
 			res, p := run(signed)
-			s.wireCheck("aggregate_and_proof", spec.Wrap(signed), func() sszPlain { return spec.Wrap(new(phase0.SignedAggregateAndProof)) }, false)
+			s.wireCheck("aggregate_and_proof", spec.Wrap(signed), func() sszPlain { return spec.Wrap(new(phase0.SignedAggregateAndProof)) }, false, nil)
 			s.judge(g, "aggregate_and_proof", what, exp, res, p)
 			if !s.stop && exp == expAccept {
 				res, p = run(signed)
@@ -659,7 +659,7 @@ func (s *sim) gossipSlot(slot uint64, blk *blockRec, parent *blockRec, hb *state
 					break
 				}
 				res, p := validate(func() gossipval.GossipValidatorResult { return gossipval.ValidateVoluntaryExit(ctx, &ex, g) })
-				s.wireCheck("voluntary_exit", &ex, func() sszPlain { return new(phase0.SignedVoluntaryExit) }, true)
+				s.wireCheck("voluntary_exit", &ex, func() sszPlain { return new(phase0.SignedVoluntaryExit) }, true, phase0.SignedVoluntaryExitType)
 				s.judge(g, "voluntary_exit", what, expAccept, res, p)
 				if !s.stop {
 					res, p = validate(func() gossipval.GossipValidatorResult { return gossipval.ValidateVoluntaryExit(ctx, &ex, g) })
@@ -682,7 +682,7 @@ func (s *sim) gossipSlot(slot uint64, blk *blockRec, parent *blockRec, hb *state
 					break
 				}
 				res, p := validate(func() gossipval.GossipValidatorResult { return gossipval.ValidateProposerSlashing(ctx, &sl, g) })
-				s.wireCheck("proposer_slashing", &sl, func() sszPlain { return new(phase0.ProposerSlashing) }, true)
+				s.wireCheck("proposer_slashing", &sl, func() sszPlain { return new(phase0.ProposerSlashing) }, true, phase0.ProposerSlashingType)
 				s.judge(g, "proposer_slashing", what, expAccept, res, p)
 				if !s.stop {
 					res, p = validate(func() gossipval.GossipValidatorResult { return gossipval.ValidateProposerSlashing(ctx, &sl, g) })
@@ -705,7 +705,7 @@ func (s *sim) gossipSlot(slot uint64, blk *blockRec, parent *blockRec, hb *state
 					break
 				}
 				res, p := validate(func() gossipval.GossipValidatorResult { return gossipval.ValidateAttesterSlashing(ctx, &sl, g) })
-				s.wireCheck("attester_slashing", spec.Wrap(&sl), func() sszPlain { return spec.Wrap(new(phase0.AttesterSlashing)) }, false)
+				s.wireCheck("attester_slashing", spec.Wrap(&sl), func() sszPlain { return spec.Wrap(new(phase0.AttesterSlashing)) }, false, phase0.AttesterSlashingType(spec))
 				s.judge(g, "attester_slashing", what, expAccept, res, p)
 				if !s.stop {
 					res, p = validate(func() gossipval.GossipValidatorResult { return gossipval.ValidateAttesterSlashing(ctx, &sl, g) })
@@ -799,7 +799,7 @@ func (s *sim) gossipSlot(slot uint64, blk *blockRec, parent *blockRec, hb *state
 					exp = expTiming
 				}
 				res, p := run(subnet, m)
-				s.wireCheck("sync_committee_message", m, func() sszPlain { return new(altair.SyncCommitteeMessage) }, true)
+				s.wireCheck("sync_committee_message", m, func() sszPlain { return new(altair.SyncCommitteeMessage) }, true, altair.SyncCommitteeMessageType)
 				s.judge(g, "sync_committee", what, exp, res, p)
 			}
 			if aggregator < 0 || s.stop {
@@ -860,7 +860,7 @@ func (s *sim) gossipSlot(slot uint64, blk *blockRec, parent *blockRec, hb *state
 				exp = expTiming
 			}
 			res, p := run(signed)
-			s.wireCheck("sync_contribution_and_proof", spec.Wrap(signed), func() sszPlain { return spec.Wrap(new(altair.SignedContributionAndProof)) }, true)
+			s.wireCheck("sync_contribution_and_proof", spec.Wrap(signed), func() sszPlain { return spec.Wrap(new(altair.SignedContributionAndProof)) }, true, altair.SignedContributionAndProofType(spec))
 			s.judge(g, "sync_contribution", what, exp, res, p)
 			if !s.stop && exp == expAccept {
 				res, p = run(signed)
